@@ -3,6 +3,7 @@ import UsualProofs.C01.LogInv
 import UsualProofs.C01.StepStuck
 import UsualProofs.C01.StepFuel
 import UsualProofs.C01.Released
+import UsualProofs.C01.Promoted
 /-!
 # C01 — talloc: an object lives exactly while some parent or reference holds it
 
@@ -161,9 +162,8 @@ parent — and every destructor in the subtree of `o` accepts, then
 A descendant `z` that has references of its own is not released by this call: `_talloc_unlink`
 makes the context of its first reference its parent (`unlink_primary_keeps` is that step), with
 the subtree of `z` hanging under it; if that context is itself inside the subtree being freed,
-`z` is visited again when the context is freed.  `wf_step` guarantees that whatever survives
-hangs under a live context; the final parent of such a `z` after several promotions is not
-characterised in one theorem.  `Clean`, `AllAccept`: UsualProofs/C01/Released.lean. -/
+`z` is visited again when the context is freed.  Where such a `z` hangs in the end is
+`unlink_last_survivors` below.  `Clean`, `AllAccept`: UsualProofs/C01/Released.lean. -/
 theorem unlink_last_releases (s : State) (rk : Nat → Nat) (hwf : wfOK s = true) (hrk : Ranked rk s)
     (ctx : Option Id) (o : Nat) (ob : Obj) (hob : s.get o = some ob) (hk : ob.kind = .plain)
     (hnull : s.nullCtx ≠ some o) (hprim : ob.parent = orNull s ctx) (hrefs : ob.refs = [])
@@ -187,6 +187,52 @@ theorem unlink_last_releases (s : State) (rk : Nat → Nat) (hwf : wfOK s = true
   intro y yb hy hout hnr
   obtain ⟨yb', g1, g2, -, g4, -⟩ := hkeep.keep y yb ⟨hout, hnr⟩ hy
   exact ⟨yb', g1, g2, (hkeep.fields y yb yb' ⟨hout, hnr⟩ hy g1).1, fun z hz h1 h2 => g4 z hz ⟨h1, h2⟩⟩
+
+/-- **unlink_last_survivors** — the final parent of what survives: under the hypotheses of
+`unlink_last_releases`, every user object `z` that is live before and after the call
+* has gained no reference (`refs` afterwards ⊆ `refs` before), and
+* hangs where it hung before, or under the context of one of the references it had before
+  (`rb.parent` for a TRef chunk `r ∈ refs` of `z`) — however many promotions it went through;
+and if its old parent is among the released objects (`Clean s o p`) the first alternative is
+impossible: a surviving descendant ends up as child of a context that referenced it. -/
+theorem unlink_last_survivors (s : State) (rk : Nat → Nat) (hwf : wfOK s = true) (hrk : Ranked rk s)
+    (ctx : Option Id) (o : Nat) (ob : Obj) (hob : s.get o = some ob) (hk : ob.kind = .plain)
+    (hnull : s.nullCtx ≠ some o) (hprim : ob.parent = orNull s ctx) (hrefs : ob.refs = [])
+    (hst : s.stuck = false) (hoo : s.oof = false) (hacc : AllAccept s o)
+    (z : Nat) (zb zb' : Obj) (hz : s.get z = some zb) (hzk : zb.kind = .plain)
+    (hz' : (step Cfg.fixed s (.unlink ctx o)).1.get z = some zb') :
+    (∀ r ∈ zb'.refs, r ∈ zb.refs) ∧
+    (zb'.parent = zb.parent ∨ ∃ r ∈ zb.refs, ∃ rb, s.get r = some rb ∧ rb.parent = zb'.parent) ∧
+    (∀ p, zb.parent = some p → Clean s o p →
+      ∃ r ∈ zb.refs, ∃ rb, s.get r = some rb ∧ rb.parent = zb'.parent) := by
+  have w := (wfOK_iff s).1 hwf
+  have i : Inv rk s := ⟨w.toWFp, hrk⟩
+  have hop : OpOK rk s (.unlink ctx o) := ⟨ob, hob, hk, hnull⟩
+  have hoof := step_oof Cfg.fixed rfl (.unlink ctx o) w hrk hop hst hoo
+  obtain ⟨-, hpv⟩ := (run_pv Cfg.fixed rfl rk s.fuel).2.1 s ctx o ob i hob hk (w.noPending o ob hob)
+    hprim hnull (pendBelow_of_wf w _ _) (pendNR_of_wf w _) hst hacc hoof
+  obtain ⟨h1, h2⟩ := hpv z zb zb' hz hz' hzk
+  refine ⟨h1, h2, ?_⟩
+  intro p hp hcl
+  rcases h2 with e | h
+  · exfalso
+    obtain ⟨-, hwf', hgone, -⟩ := unlink_last_releases s rk hwf hrk ctx o ob hob hk hnull hprim hrefs hst hoo hacc
+    have w' := (wfOK_iff _).1 hwf'
+    obtain ⟨po, hpo, -⟩ := w'.parentLive z zb' p hz' (by rw [e]; exact hp)
+    rw [hgone p hcl] at hpo; cases hpo
+  · exact h
+
+/-- non-vacuity: object 2 (child of 1) is referenced from context 5 outside the freed subtree and
+from context 3 inside it; `talloc_unlink(0, 1)` releases 1, 3 and both TRef chunks' owners as far
+as they are inside, and 2 ends up under 5 with no reference left -/
+example :
+    let s := runOps Cfg.fixed {} [.alloc none 0 false false, .alloc (some 0) 9 false false,
+      .alloc (some 1) 9 false false, .alloc (some 1) 9 false false, .alloc (some 2) 7 false false,
+      .alloc (some 0) 1 false false, .reference (some 3) 2 false, .reference (some 5) 2 false]
+    let s' := (step Cfg.fixed s (.unlink (some 0) 1)).1
+    s'.live 1 = false ∧ s'.live 3 = false ∧ s'.live 2 = true ∧ s'.live 4 = true ∧
+    (s'.get 2).map (·.parent) = some (some 5) ∧ (s'.get 2).map (·.refs) = some [] ∧
+    (s'.get 4).map (·.parent) = some (some 2) := by decide
 
 /-- non-vacuity: a subtree with a child, a grandchild, a TRef chunk and a `.memlimit` chunk, all
 reached without passing a referenced object, is released completely; a sibling keeps its place -/
